@@ -180,6 +180,39 @@ def scalarNode (tname : String) (isEnum isSpecified : Bool) (v : J) : Option Lit
 
 def specifiedScalars : List String := ["Int", "Float", "Boolean", "String", "ID"]
 
+/-- `_NAME_RE = [_a-zA-Z][_a-zA-Z0-9]*` (keys of a structured custom-scalar value that can be object-literal keys) -/
+def isAsciiName (cs : Chars) : Bool :=
+  match cs with
+  | [] => false
+  | c :: r => (c.isAlpha || c = '_') && r.all fun d => d.isAlpha || d = '_' || d.isDigit
+
+mutual
+/-- serialized value of a CUSTOM scalar → literal: the leaf rule of `_scalar_node_from_value`, and (fix I7) dicts /
+    lists of a JSON-like scalar as object / list literals, entries by the same rule, `None` entries as `null`;
+    a key that is not a Name has no literal form (`ValueError`). -/
+def customNode (tname : String) : J → Option Lit
+  | .obj [("$float", .str r)] => scalarNode tname false false (.obj [("$float", .str r)])
+  | .obj kvs => (customFields tname kvs).map .obj
+  | .arr xs => (customItems tname xs).map .list
+  | v => scalarNode tname false false v
+def customItems (tname : String) : List J → Option (List Lit)
+  | [] => some []
+  | .null :: xs => (customItems tname xs).map (Lit.null :: ·)
+  | x :: xs =>
+      match customNode tname x, customItems tname xs with
+      | some l, some ls => some (l :: ls)
+      | _, _ => none
+def customFields (tname : String) : List (String × J) → Option (List (Chars × Lit))
+  | [] => some []
+  | (k, .null) :: kvs => if isAsciiName k.toList then (customFields tname kvs).map ((k.toList, Lit.null) :: ·) else none
+  | (k, v) :: kvs =>
+      if isAsciiName k.toList then
+        match customNode tname v, customFields tname kvs with
+        | some l, some ls => some ((k.toList, l) :: ls)
+        | _, _ => none
+      else none
+end
+
 mutual
 /-- structural equality of canonical values (kernel-reducible, unlike the derived `BEq J`) -/
 def jEq : J → J → Bool
@@ -238,13 +271,13 @@ def litOf (s : SchemaD) : Nat → Ty → J → Option Lit
         match td.kind with
         | .input =>
             match v with
-            | .obj kvs => (litOfFields s fuel td.inputFields kvs).map .obj
+            | .obj kvs => (litOfFields s fuel (td.inputFields.map (·.pythonName)) td.inputFields kvs).map .obj
             | _ => none
         | .enum =>
             match enumNameOf td.values v with
             | some nm => scalarNode n true false (.str nm)
             | none => none
-        | .scalar => scalarNode n false (specifiedScalars.contains n) v
+        | .scalar => if specifiedScalars.contains n then scalarNode n false true v else customNode n v
         | _ => none
 def litOfList (s : SchemaD) : Nat → Ty → List J → Option (List Lit)
   | 0, _, _ => none
@@ -254,18 +287,20 @@ def litOfList (s : SchemaD) : Nat → Ty → List J → Option (List Lit)
       | some l, some ls => some (l :: ls)
       | _, _ => none
 /-- `_object_value_node_from_value`: fields in the order of the TYPE's fields, those present in the value -/
-def litOfFields (s : SchemaD) : Nat → List ArgD → List (String × J) → Option (List (Chars × Lit))
-  | 0, _, _ => none
-  | _+1, [], _ => some []
-  | fuel+1, f :: fs, kvs =>
-      -- coerced input objects are keyed by the configured Python names (fix d67cad3): python_name if present, else name
-      match kvs.find? (·.1 == (if (kvs.find? (·.1 == f.pythonName)).isSome then f.pythonName else f.name)) with
+def litOfFields (s : SchemaD) : Nat → List String → List ArgD → List (String × J) → Option (List (Chars × Lit))
+  | 0, _, _, _ => none
+  | _+1, _, [], _ => some []
+  | fuel+1, pyNames, f :: fs, kvs =>
+      -- coerced input objects are keyed by the configured Python names (d67cad3); the GraphQL name is used only when
+      -- the value has no entry under the Python name and no other field owns that key (fix I9). `pyNames`: the
+      -- Python names of ALL fields of the type.
+      match kvs.find? (·.1 == (if !(kvs.find? (·.1 == f.pythonName)).isSome && !pyNames.contains f.name then f.name else f.pythonName)) with
       | some (_, v) =>
-          match litOf s fuel f.type v, litOfFields s fuel fs kvs with
+          match litOf s fuel f.type v, litOfFields s fuel pyNames fs kvs with
           | some l, some ls => some ((f.name.toList, l) :: ls)
           | _, _ => none
       | none =>
-          if f.type.isNonNull && !f.hasDefault then none else litOfFields s fuel fs kvs
+          if f.type.isNonNull && !f.hasDefault then none else litOfFields s fuel pyNames fs kvs
 end
 
 /-! ### literals: reading -/
